@@ -503,6 +503,9 @@ func partB(r *ev.Run, built *cserve.Built) bResult {
 			if !r.Thorough() && (len(in.data) > 4<<10 || in.bigObject) {
 				stepped = false // quick: the sanitizer build re-runs the stepped scripts of inputs up to 4 KiB
 			}
+			if r.Thorough() && len(in.data) > 16<<10 {
+				stepped = false // thorough: up to 16 KiB
+			}
 			single := len(in.data) <= 64 && len(sc.SrcEnds) == 1
 			if !r.Thorough() && i%2 == 1 {
 				single = false // quick: the single source splits of every other short input
